@@ -2,10 +2,13 @@
    Statements only; every proof is [exact <lemma of Proofs/OomFacts.v>]. The theorems are about
    ResourcePool._run_out_of_memory_killer as modelled in Model/Pool.v ([oom_killer]), for every list
    of containers, every capacity and every rounding function [cf_rnd] (the score is the one the code
-   computes, [score C c] = usage * (usage / allocation) with its two float operations). *)
+   computes, [score C c] = usage * (usage / allocation) with its two float operations).
+   Second half, [float]: in the float-faithful model (forall x, cf_rnd C x == rnd64 x) float near-ties cannot
+   reorder candidates whose exact scores are clearly apart; explicit relative gaps (Proofs/FloatBoundFacts.v). *)
 From Coq Require Import List ZArith QArith Sorting.Sorted Sorting.Permutation.
 Import ListNotations.
-From Eudoxia Require Import Model.Types Model.Lifecycle Model.Container Model.Pool Proofs.OomFacts.
+From Eudoxia Require Import Model.Types Model.Lifecycle Model.Container Model.Pool Proofs.OomFacts
+  Num.Rnd64 Proofs.FloatBoundFacts.
 
 (* the candidate order: a stable, descending sort of exactly the unfinished containers that use memory *)
 Theorem C11_order_sorted : forall l,
@@ -73,3 +76,99 @@ Print Assumptions C11_kills_needed_exact.
 (* non-vacuity: four candidates with a tie, pool over capacity: order [2;0;1], victims 2 then 0 *)
 Example C11_witness_order : victims_order Examples.exC Examples.exAct = [2; 0; 1].
 Proof. exact Examples.ex_order. Qed.
+
+(* ====================================================================== *)
+(* [float] the float-faithful model                                        *)
+(* ====================================================================== *)
+(* The score the code computes for usage m and allocation r is rnd64 (m * rnd64 (m / r))
+   (consumption_percent = consumption_gb / ram; score = consumption_gb * consumption_percent);
+   the exact score is m * (m / r) = m^2 / r. *)
+
+(* [float] exact scores apart by the relative gap 2 / (2^53 - 1) are never reordered by the roundings ... *)
+Theorem C11_float_score_order : forall m1 r1 m2 r2,
+  (0 < m1)%Q -> (0 < r1)%Q -> (0 < m2)%Q -> (0 < r2)%Q ->
+  (m1 * (m1 / r1) * (1 + (2 # 9007199254740991)) <= m2 * (m2 / r2))%Q ->
+  (rnd64 (m1 * rnd64 (m1 / r1)) <= rnd64 (m2 * rnd64 (m2 / r2)))%Q.
+Proof. exact score_order_weak. Qed.
+Print Assumptions C11_float_score_order.
+
+(* ... and apart by 5 * 2^-53 they stay strictly ordered (no float tie either) *)
+Theorem C11_float_score_order_strict : forall m1 r1 m2 r2,
+  (0 < m1)%Q -> (0 < r1)%Q -> (0 < m2)%Q -> (0 < r2)%Q ->
+  (m1 * (m1 / r1) * (1 + (5 # 9007199254740992)) <= m2 * (m2 / r2))%Q ->
+  (rnd64 (m1 * rnd64 (m1 / r1)) < rnd64 (m2 * rnd64 (m2 / r2)))%Q.
+Proof. exact score_order_strict. Qed.
+Print Assumptions C11_float_score_order_strict.
+
+(* the computed score is within two roundings of the exact one *)
+Theorem C11_float_score_error : forall m r, (0 < m)%Q -> (0 < r)%Q ->
+  (m * (m / r) * ((1 - (1 # 9007199254740992)) * (1 - (1 # 9007199254740992))) <= rnd64 (m * rnd64 (m / r)))%Q /\
+  (rnd64 (m * rnd64 (m / r)) <= m * (m / r) * ((1 + (1 # 9007199254740992)) * (1 + (1 # 9007199254740992))))%Q.
+Proof. exact score_f_bounds. Qed.
+Print Assumptions C11_float_score_error.
+
+(* [float] monotonicity that holds without any gap: same allocation, more memory -> the score does not
+   decrease; same memory, larger allocation -> it does not increase *)
+Theorem C11_float_score_mono_mem : forall m1 m2 r,
+  (0 <= m1)%Q -> (m1 <= m2)%Q -> (0 < r)%Q ->
+  (rnd64 (m1 * rnd64 (m1 / r)) <= rnd64 (m2 * rnd64 (m2 / r)))%Q.
+Proof. exact score_f_mono_mem. Qed.
+Print Assumptions C11_float_score_mono_mem.
+
+Theorem C11_float_score_anti_ram : forall m r1 r2,
+  (0 <= m)%Q -> (0 < r1)%Q -> (r1 <= r2)%Q ->
+  (rnd64 (m * rnd64 (m / r2)) <= rnd64 (m * rnd64 (m / r1)))%Q.
+Proof. exact score_f_anti_ram. Qed.
+Print Assumptions C11_float_score_anti_ram.
+
+(* [float] the candidate order: a candidate whose exact score is larger by the gap comes first *)
+Theorem C11_float_order_clearly_above_first : forall C act v s,
+  (forall x, (cf_rnd C x == rnd64 x)%Q) ->
+  In v act -> In s act -> scorable v = true -> scorable s = true ->
+  (0 < c_ram v)%Q -> (0 < c_ram s)%Q ->
+  (c_mem v * (c_mem v / c_ram v) * (1 + (5 # 9007199254740992)) <= c_mem s * (c_mem s / c_ram s))%Q ->
+  exists l1 l2 l3, victims_order C act = l1 ++ c_id s :: l2 ++ c_id v :: l3.
+Proof. exact float_order_clearly_above_first. Qed.
+Print Assumptions C11_float_order_clearly_above_first.
+
+(* [float] the killer: no container is killed by the pool-level loop while a surviving candidate has an
+   exact score larger by more than the relative gap 5 * 2^-53 (act1 is the list after step 1) *)
+Theorem C11_float_no_survivor_clearly_above : forall C max w cons act w' cons' act',
+  (forall x, (cf_rnd C x == rnd64 x)%Q) ->
+  NoDup (map c_id act) ->
+  oom_killer C max w cons act = Ok (w', cons', act') ->
+  exists w1 cons1 act1,
+    kill_over_limit C w cons act = Ok (w1, cons1, act1) /\
+    forall v s, In v act1 -> In s act1 -> scorable s = true ->
+      In (c_id v) (ids_killed act1 act') -> ~ In (c_id s) (ids_killed act1 act') ->
+      (0 < c_mem v * (c_mem v / c_ram v))%Q /\
+      (c_mem s * (c_mem s / c_ram s) < c_mem v * (c_mem v / c_ram v) * (1 + (5 # 9007199254740992)))%Q.
+Proof. exact float_no_survivor_clearly_above. Qed.
+Print Assumptions C11_float_no_survivor_clearly_above.
+
+(* the gap is needed: A uses 46.96208577139648 of 140 GB, B uses 17.75 of 20 GB; the exact score of B is
+   larger (by a relative 0.76 * 2^-53), the float score of A is larger (15.753125 against
+   15.753124999999999), and the float-faithful killer takes A before B although B stands first *)
+Example C11_float_gap_needed :
+  let mA := (6609325999393827 # 140737488355328)%Q in
+  let mB := (71 # 4)%Q in
+  (mA * (mA / 140) < mB * (mB / 20))%Q /\
+  (rnd64 (mB * rnd64 (mB / 20)) < rnd64 (mA * rnd64 (mA / 140)))%Q /\
+  (mB * (mB / 20) < mA * (mA / 140) * (1 + (2 # 9007199254740991)))%Q /\
+  victims_order FloatExamples.exF
+    [FloatExamples.mkc 1 20 mB; FloatExamples.mkc 0 140 mA] = [0; 1] /\
+  victims_order Examples.exC
+    [FloatExamples.mkc 1 20 mB; FloatExamples.mkc 0 140 mA] = [1; 0].
+Proof.
+  split; [exact (proj1 FloatExamples.ex_swap)|].
+  split; [exact (proj1 (proj2 FloatExamples.ex_swap))|].
+  split; [exact (proj2 (proj2 FloatExamples.ex_swap))|].
+  exact FloatExamples.ex_swap_order.
+Qed.
+
+(* non-vacuity of the order theorem: scores 2 and 6 in the float-faithful configuration *)
+Example C11_float_witness_order :
+  exists l1 l2 l3,
+    victims_order FloatExamples.exF
+      [FloatExamples.mkc 0 8 4; FloatExamples.mkc 1 6 6] = l1 ++ 1 :: l2 ++ 0 :: l3.
+Proof. exact FloatExamples.ex_clear_order. Qed.
